@@ -62,9 +62,9 @@ fn array<const N: usize>() {
     core::mem::forget(t);
 }
 
-/// AdjacencyMap with non-contiguous vertex ids {0, 2, 5}.
+/// AdjacencyMap with non-contiguous vertex ids {0, 2, 3}.
 fn map_noncontiguous() {
-    const IDS: [usize; 3] = [0, 2, 5];
+    const IDS: [usize; 3] = [0, 2, 3];
 
     cx::set_vcap(8);
 
@@ -101,7 +101,7 @@ fn map_noncontiguous() {
             }
 
             assert!(
-                !comps[c].contains(&1) && !comps[c].contains(&3) && !comps[c].contains(&4),
+                !comps[c].contains(&1),
                 "only vertices of the digraph"
             );
         }
@@ -124,7 +124,7 @@ fn map_noncontiguous() {
         }
     }
 
-    kani::cover!(present[1] && present[2] && comps.len() == 1, "strongly connected on {0, 2, 5}");
+    kani::cover!(present[1] && present[2] && comps.len() == 1, "strongly connected on {0, 2, 3}");
     core::mem::forget(t);
     core::mem::forget(d);
 }
@@ -137,8 +137,8 @@ pub fn c09_array_n3() {
     array::<3>();
 }
 
-// Tarjan over AdjacencyMap digraphs with vertex set within {0, 2, 5}.
-// @verif prop=C09 tier=quick fl=f2 role=map-noncontiguous t=1200 mem=14
+// Tarjan over AdjacencyMap digraphs with vertex set within {0, 2, 3}.
+// @verif prop=C09 tier=quick fl=f2 feat=map4 role=map-noncontiguous t=1200 mem=14
 #[cfg_attr(kani, kani::proof)]
 #[cfg_attr(kani, kani::unwind(10))]
 pub fn c09_map_noncontiguous() {
